@@ -74,14 +74,18 @@ def register(w):
     w.contract(H + "dir.py::DirHandler.prep_entriesappend", selfclass=["DirHandler"],
                params={"file": "str", "handler": "obj:AnyHandler", "fileentry": "obj:GopherEntry"},
                modifies=["self.fileentries"], raises={},
-               ensures=["len(self.fileentries) == len(old(self.fileentries)) + 1"],
-               props=["C12", "C07"])
+               ensures=["len(self.fileentries) == len(old(self.fileentries)) + 1", "self.fileentries[len(self.fileentries) - 1] is fileentry"],
+               inline=True, props=["C12", "C07", "C08"])
     w.contract(H + "UMN.py::UMNDirHandler.prep_entriesappend", selfclass=["UMNDirHandler"],
                params={"file": "str", "handler": "obj:AnyHandler", "fileentry": "obj:GopherEntry"},
-               modifies=["self.fileentries", "fileentry.*", "g:extstrip", MROOT], raises={}, assumed=True,
-               ensures=["len(self.fileentries) <= len(old(self.fileentries)) + 1", "len(self.fileentries) >= len(old(self.fileentries))"],
-               note="verified under C08 (.cap merge); here: appends at most the entry it was given, raises nothing",
-               props=["C12", "C07"])
+               globals=dict(GROOT, extstrip="opt[str]"),
+               requires=FS + ["S.child_name_ok(file)"],
+               modifies=["self.fileentries", "fileentry.*", "g:extstrip", MROOT], raises={},
+               ensures=["len(self.fileentries) <= len(old(self.fileentries)) + 1", "len(self.fileentries) >= len(old(self.fileentries))",
+                        "implies(len(self.fileentries) == len(old(self.fileentries)) + 1, self.fileentries[len(self.fileentries) - 1] is fileentry)"],
+               ghost={"open_files": "trace", "opened_paths": "trace"},
+               note="appends at most the entry it was given (after the extension rule and the .cap merge), raises nothing: a missing or unreadable .cap file is the normal case",
+               props=["C12", "C07", "C08"])
     w.contract(H + "dir.py::DirHandler.prep_entries", selfclass=DIRS, globals=dict(GROOT, **{"pygopherd/handlers/HandlerMultiplexer.py:handlers": "opt[list[class:AnyHandler]]"}),
                requires=FS + ["self.searchrequest is None or True"],
                modifies=["self.fileentries", MROOT, "g:pygopherd/handlers/HandlerMultiplexer.py:handlers"], raises={},
@@ -89,6 +93,8 @@ def register(w):
                loops={0: dict(invariant=["len(self.fileentries) <= _k", "self.selectorbase == ('' if self.selector == '/' else self.selector)"],
                               havoc=["self.fileentries"])},
                ghost={"open_files": "trace", "opened_paths": "trace"},
+               opts={"assume_requires": ["S.child_name_ok(file)"],
+                     "assume_requires_why": "file is an element of self.files, which prep_initfiles fills from vfs.listdir (VFS_Real.listdir.result_elem: every enumerated name is a child name); element predicates of list-valued fields are not carried by the engine"},
                note="C12: no failure of a single child (getHandler raising FileNotFound - failed stat, rejected name - or getentry failing) leaves the loop; C07: at most one entry per name",
                props=["C12", "C07", "C03"])
     register2(w)
